@@ -44,7 +44,8 @@ theorem C10F_fabricated_codes (s : Node) (e : Event) (c : Nat) (m : ToClient) (r
   · exact absurd h1 (hnot early)
 
 /-- a node that is not the leader never hands a LOCK / UNLOCK to its own engine — EXCEPT the first command of a text
-connection when it fits the first 64-byte read (`short`; see `C10F_never_decides_violated_first_text`) -/
+connection when it fits the first 64-byte read (`short`; see `C10F_first_text_command_refused_locally`: there the node's own
+engine refuses, which the statement allows) -/
 theorem C10F_not_local_partial (s : Node) (c : Nat) (short : Bool) (ct : CType) (md : TextMode) (cmd : LockCmd) (rep : Replica)
     (hr : s.role ≠ .leader)
     (hs : ∀ x, s.conns[c]? = some x → ¬(x.kind = .text ∧ x.plainLoop = none ∧ short = true)) (a : Bool) :
@@ -81,10 +82,11 @@ theorem C10F_never_decides_violated :
       { tag := .probed, client := [(0, .lockRes (localRes .lock (demoCmd 1 10 8 0) 8 1 0 []))], fwd := [] } := by
   decide
 
-/-- **VIOLATED (… or forwarded)**: the FIRST command of a text connection, when it fits the first 64-byte read, is
-handed to the node's own (plain) handlers although a link to the leader could be opened: the node's own engine answers
-it (by the engine's role gate: STATE_ERROR) — the second command of the same connection is forwarded. -/
-theorem C10F_never_decides_violated_first_text :
+/-- REMARK (within the statement: a non-leader may REFUSE with STATE_ERROR instead of forwarding): the FIRST command of
+a text connection, when it fits the first 64-byte read, is handed to the node's own (plain) handlers although a link to
+the leader could be opened; the node's own engine refuses it (role gate: STATE_ERROR, engine half of C10) — the second
+command of the same connection is forwarded. This is the one case `C10F_not_local_partial` excludes. -/
+theorem C10F_first_text_command_refused_locally :
     (step (run [.accept .text]) (.request 0 true (.lk .lock .wait (demoCmd 1 10 0 0) .noDb))).2 = { tag := .loc false } ∧
     (step (run [.accept .text, .request 0 true (.lk .lock .wait (demoCmd 1 10 0 0) .noDb)])
         (.request 0 false (.lk .lock .wait (demoCmd 2 10 0 0) .noDb))).2.fwd = [(0, .lk .lock (demoCmd 2 10 0 0))] := by
